@@ -20,6 +20,30 @@ func init() {
 }
 
 func c13(c *Ctx) {
+	{
+		// the primary commits no local transaction while the halt lock is granted: the three local publishers
+		// either run under SQLite's own write lock (CommitJournal, CommitWAL: gated by the FUSE lock protocol,
+		// see C11) or take the internal write lock themselves (Drop)
+		p := c.P
+		dr := "litefs.(*DB).Drop"
+		acq := p.PlainCalls("litefs.(*DB).AcquireWriteLock")
+		work := Any(p.CallsRe(`litefs\.OS\.(Create|Rename|Remove)`), p.PlainCalls("litefs.(*DB).setPos"), p.Writes("litefs.DB.pageN"))
+		c.Before("local-commit/Drop/under-write-lock", dr, work, acq, 3, "Drop acquires the internal write lock before it creates, publishes or removes anything", "a granted halt lock holds that write lock on behalf of the replica: a drop that does not take it is a local commit on the primary while the replica writes")
+		c.ErrHandled("local-commit/Drop/lock-error", dr, acq, work, 1, "a lock that could not be acquired stops the drop", "")
+		c.ExpectAll("local-commit/Drop/lock-context", c.CallArgs(dr, acq, 1), "p1", 1, "the acquisition is bounded by the caller's context", "")
+		{
+			fn := c.F(dr)
+			n := 0
+			if fn != nil {
+				for _, in := range Instrs(fn, func(in ssa.Instruction) bool { _, ok := in.(*ssa.Defer); return ok }) {
+					if strings.Contains(p.RenderCall(in), "litefs.(*GuardSet).Unlock(litefs.(*DB).AcquireWriteLock(") {
+						n++
+					}
+				}
+			}
+			c.Expect("local-commit/Drop/unlock-deferred", fmt.Sprint(n), "1", "the acquired set is released by a deferred Unlock (held until Drop returns)", "")
+		}
+	}
 	c.forwardedExtends("forwarded")
 	c.primaryOnlyHandlers("primary-only")
 	p := c.P
@@ -377,6 +401,41 @@ func c13(c *Ctx) {
 	c.Before("skip-own/unset-before-position-check", pf, p.PlainCalls("litefs.(*DB).Pos"), p.PlainCalls("litefs.(*DB).RemoteHaltLock"), 1,
 		"a stale remote halt lock is examined (and cleared) before the frame's position is compared", "recovery on unset can move the position")
 	c.Guarded("skip-own/unset-guarded", pf, p.PlainCalls("litefs.(*DB).unsetRemoteHaltLock"), gs(GP("(litefs.(*DB).RemoteHaltLock(@@) == nil)", false)), 1, "the halt lock is cleared only when one is held", "")
+	{
+		// a frame carrying this node's id may only be skipped when the node already has that transaction
+		pfn := c.F(pf)
+		key := "skip-own/only-when-already-applied"
+		desc := "processLTXStreamFrame discards a frame with its own node id only when the local position already covers the frame's TXID"
+		why := "a forwarded commit that the primary applied but whose response was lost is rolled back locally; when it comes back on the stream it is skipped, every later frame then fails with a position mismatch and the replica reconnects for ever (it never converges)"
+		if c.need(key, "K2 Guarded", desc, pfn, pf) {
+			ownEdge := 0
+			covered := 0
+			for _, b := range pfn.Blocks {
+				if len(b.Instrs) == 0 {
+					continue
+				}
+				iff, ok := b.Instrs[len(b.Instrs)-1].(*ssa.If)
+				if !ok {
+					continue
+				}
+				r, _ := p.Cond(iff.Cond)
+				if strings.Contains(r, "litefs.(*Store).ID(p0)") && strings.Contains(r, ".NodeID") {
+					ownEdge++
+				}
+				if strings.Contains(r, "litefs.(*DB).Pos(") && strings.Contains(r, ".TXID") && strings.Contains(r, "MaxTXID") {
+					covered++
+				}
+			}
+			switch {
+			case ownEdge == 0:
+				c.fail(key, "K2 Guarded", desc, why, "no test of the frame's node id found", 0)
+			case covered == 0:
+				c.fail(key, "K2 Guarded", desc, why, "the own-frame branch tests only the node id; the local position is not compared with the frame's MaxTXID anywhere in the function", ownEdge)
+			default:
+				c.ok(key, "K2 Guarded", desc, ownEdge)
+			}
+		}
+	}
 	c.OnlyGuards("skip-own/unset-on-every-foreign-frame", pf, p.PlainCalls("litefs.(*DB).unsetRemoteHaltLock"), gs(
 		GP("(litefs.(*Store).CreateDBIfNotExists(p0, p2.Name)#1 == nil)", true), GP("(ltx.DecodeHeader(p3)#2 == nil)", true), GP("(litefs.(*DB).AcquireWriteLock(@@)#1 == nil)", true),
 		G(pat("(litefs.(*Store).ID(p0) == ltx.DecodeHeader(p3)#0.NodeID)")+"|"+pat("(ltx.DecodeHeader(p3)#0.NodeID == litefs.(*Store).ID(p0))"), false),
